@@ -51,6 +51,19 @@ Theorem C15_cel0_zero_raises : forall fuel p c s, cel0_raises_on_zero = true -> 
 Proof. exact cel0_zero_raises. Qed.
 Print Assumptions C15_cel0_zero_raises.
 
+(* ---- celv (vectorised cel: masked do-while, every unconverged row steps while any row fails) and the dispatcher cel *)
+Theorem C15_celv_terminates : forall (N : nat) (rows : list (R * R * R * R)),
+  Forall (fun r => let '(kc, _, _, _) := r in kc <> 0 /\ Rabs kc <= 1 /\ theta6 ^ (2 ^ (S N)) < Rabs kc) rows ->
+  exists n v, (n <= S N)%nat /\ celv NumR (S N) rows = Done n v /\ length v = length rows.
+Proof. exact celv_terminates. Qed.
+Print Assumptions C15_celv_terminates.
+
+Theorem C15_cel_terminates : forall rows : list (R * R * R * R),
+  Forall (fun r => let '(kc, _, _, _) := r in kc <> 0 /\ Rabs kc <= 1) rows ->
+  exists N n v, cel NumR N rows = Done n v.
+Proof. exact cel_terminates. Qed.
+Print Assumptions C15_cel_terminates.
+
 (* ---- guards_sufficient (partial: circle and cylinder-axial wrappers; the other wrappers are searched) *)
 Theorem C15_guards_sufficient_circle_partial : forall (r z d i0 : R),
   let w := Build_cir_row NumR r z d i0 in
